@@ -296,6 +296,87 @@ Section DriverExtProofs.
   Qed.
 
   (* ---------------------------------------------------------------- *)
+  (* listings follow the writes: a created collection is listed, a dropped
+     one is not *)
+
+  (* a successful CreateCollection followed by a listing of its database with
+     a filter that accepts everything: the new collection's specification is
+     in the result *)
+  Theorem created_collection_is_listed ds sid h ds' q res :
+    (forall d, matchf d q = Ok true) ->
+    xstep ds (XCreateColl sid h) = (ds', XR ROk) ->
+    txn_list_collections matchf (ds_cat ds') (fst h) q = inl res ->
+    In (coll_spec h) res.
+  Proof.
+    intros Hq Hc Hl. destruct (create_coll_creates ds sid h ds' Hc) as [[nc G] _].
+    apply CatInv.ns_get_in in G.
+    assert (NE : no_error (fun d => matchf d q)
+                   (map (fun hc => coll_spec (fst hc))
+                        (filter (fun hc => String.eqb (fst (fst hc)) (fst h)) (cat_ns (ds_cat ds'))))).
+    { intros d _. exists true. apply Hq. }
+    apply (proj2 (list_collections_spec (ds_cat ds') (fst h) q res NE Hl (coll_spec h))).
+    exists (snd h), nc. destruct h as [db co]. cbn [fst snd]. split; [exact G|]. split; [reflexivity|apply Hq].
+  Qed.
+
+  (* Transaction.Drop of one collection: it is gone afterwards *)
+  Lemma drop_matches_self h : drop_matches h h = true.
+  Proof. unfold drop_matches. rewrite handle_eqb_refl. reflexivity. Qed.
+
+  Theorem txn_drop_removes c g h c' g' :
+    txn_drop c g h = (c', g', inl tt) -> handle_eqb h oplog_handle = false ->
+    ns_get (cat_ns c') h = None.
+  Proof.
+    unfold txn_drop. destruct (negb (valid_handle h false)); [intro H; inversion H|].
+    destruct (is_local h); [intro H; inversion H|].
+    destruct (map fst (filter (fun kc => drop_matches h (fst kc)) (cat_ns c))) as [|v vs] eqn:V.
+    - intros H Ho. inversion H; subst. apply CatInv.ns_get_none. intro Hin.
+      apply in_map_iff in Hin. destruct Hin as [[k x] [E Hin]]. cbn [fst] in E. subst k.
+      assert (X : In h (map fst (filter (fun kc => drop_matches h (fst kc)) (cat_ns c')))).
+      { apply in_map_iff. exists (h, x). split; [reflexivity|]. apply filter_In. split; [exact Hin|].
+        cbn [fst]. apply drop_matches_self. }
+      rewrite V in X. exact X.
+    - destruct (drop_events _ _ _ _) as [[ol cl] g1].
+      destruct (if String.eqb (snd h) "" then _ else _) as [[ol2 cl2] g2].
+      intros H Ho. inversion H; subst. cbn [cat_ns].
+      rewrite CatInv.ns_get_set_other.
+      + apply CatInv.ns_get_none. intro Hin. apply in_map_iff in Hin. destruct Hin as [[k x] [E Hin]].
+        cbn [fst] in E. subst k. apply filter_In in Hin. destruct Hin as [_ Hn]. cbn [fst] in Hn.
+        rewrite drop_matches_self in Hn. discriminate.
+      + intro E. subst h. rewrite handle_eqb_refl in Ho. discriminate.
+  Qed.
+
+  (* Collection.Drop through the driver: afterwards no listing of its database
+     contains the collection, whatever the filter *)
+  Theorem dropped_collection_is_not_listed ds sid h ds' q res :
+    step ds (CDropColl sid h) = (ds', ROk) ->
+    no_error (fun d => matchf d q)
+             (map (fun hc => coll_spec (fst hc))
+                  (filter (fun hc => String.eqb (fst (fst hc)) (fst h)) (cat_ns (ds_cat ds')))) ->
+    txn_list_collections matchf (ds_cat ds') (fst h) q = inl res ->
+    ~ In (coll_spec h) res.
+  Proof.
+    cbn [Driver.step]. unfold use_direct.
+    destruct (routed ds sid); [intro H; inversion H|].
+    destruct (token_held ds); [intro H; inversion H|].
+    destruct (txn_drop (ds_cat ds) (ds_gen ds) h) as [[c' g'] r] eqn:D.
+    destruct r as [[]|e]; intro H; inversion H; subst; clear H. cbn [ds_cat].
+    intros NE Hl Hin.
+    assert (Ho : handle_eqb h oplog_handle = false).
+    { unfold txn_drop in D. destruct (negb (valid_handle h false)); [inversion D|].
+      destruct (is_local h) eqn:L; [inversion D|].
+      destruct (handle_eqb h oplog_handle) eqn:E; [|reflexivity].
+      unfold handle_eqb in E. apply andb_true_iff in E. destruct E as [E _].
+      unfold is_local in L. unfold oplog_handle in E. cbn [fst] in E. congruence. }
+    pose proof (txn_drop_removes _ _ _ _ _ D Ho) as G.
+    apply (proj1 (list_collections_spec c' (fst h) q res NE Hl (coll_spec h))) in Hin.
+    destruct Hin as [name [nc [Hi [E _]]]].
+    assert (name = snd h).
+    { unfold coll_spec in E. cbn [fst snd] in E. inversion E. reflexivity. }
+    subst name. destruct h as [db co]. cbn [fst snd] in *.
+    apply CatInv.ns_get_none in G. apply G. apply in_map_iff. exists ((db, co), nc). split; [reflexivity|exact Hi].
+  Qed.
+
+  (* ---------------------------------------------------------------- *)
   (* CreateMany = its CreateOne calls, in order, up to the first error *)
 
   Theorem create_many_nil ds sid h acc : create_many ds sid h [] acc = (ds, XNames acc None).
